@@ -25,7 +25,20 @@ import (
 	"time"
 )
 
-const verifDir = "/verif"
+// verifDir is the directory the runner works in: the current directory if it is a copy of /verif
+// (the registered commands run in /verif; `vp run` and seedcheck.sh run in a snapshot of the
+// committed tree), /verif otherwise.
+var verifDir = func() string {
+	if wd, err := os.Getwd(); err == nil {
+		if _, err := os.Stat(filepath.Join(wd, "cmd", "vcheck", "main.go")); err == nil {
+			if _, err := os.Stat(filepath.Join(wd, "harness", "bgp")); err == nil {
+				return wd
+			}
+		}
+	}
+	return "/verif"
+}()
+
 const goBin = "/opt/veriftools/go1.26.8/bin"
 
 type propInfo struct {
